@@ -762,7 +762,7 @@ SCALE_DEFAULT = {'changes': 2, 'files': 2, 'pre_lines': 2, 'pre_width': 5,
                  'indent': 4, 'meta_keys': 2, 'meta_depth': 1,
                  'meta_strlen': 3, 'diff_lines': 3, 'diff_width': 5,
                  'pre_total': 0, 'diff_total': 0, 'diff_one': 0,
-                 'meta_total': 0, 'straddle': 0}
+                 'meta_total': 0, 'straddle': 0, 'pre_barecr': 0}
 
 
 def scale_calls(cfg, enc=None, le=None):
@@ -789,6 +789,11 @@ def scale_calls(cfg, enc=None, le=None):
         ptext = sized_text(cfg['pre_total'], 'lines', nl, 'p')
     if cfg.get('straddle'):
         ptext = straddle_text(cfg['straddle'], enc or 'utf-8', nl)
+    if cfg.get('pre_barecr'):
+        # lines containing lone CRs (and, in dos text, lone LFs)
+        other = '\n' if le == 'dos' else '\r'
+        line = 'bare %s here and %s there' % (other, other)
+        ptext = (line + nl) * (cfg['pre_barecr'] // (len(line) + len(nl)))
     mmeta = meta('main')
     if cfg.get('meta_total'):
         mmeta['blob'] = ['v' * 50] * (cfg['meta_total'] // 60)
@@ -825,6 +830,48 @@ def scale_configs(tier):
             c = dict(SCALE_DEFAULT)
             c[dim] = v
             out.append(c)
+    # every PAIR of dimensions at one representative large value each
+    # (two quantities unusual at the same time)
+    big = {'changes': 5, 'files': 5, 'pre_lines': 101, 'pre_width': 193,
+           'indent': 11, 'meta_keys': 101, 'meta_depth': 8,
+           'meta_strlen': 1000, 'diff_lines': 101, 'diff_width': 193,
+           'pre_total': 8193, 'diff_total': 8193, 'diff_one': 4097,
+           'meta_total': 8300, 'straddle': 8300}
+    names = sorted(big)
+    for i, a in enumerate(names):
+        for b in names[i + 1:]:
+            if {a, b} <= {'pre_lines', 'pre_width', 'pre_total', 'straddle'} \
+                    or {a, b} <= {'diff_lines', 'diff_width', 'diff_total',
+                                  'diff_one'}:
+                continue        # these override each other
+            c = dict(SCALE_DEFAULT)
+            c[a], c[b] = big[a], big[b]
+            out.append(c)
+    # "huge": thresholds are one-sided (behaviour changes for everything
+    # at or above T), so one value far above every plausible buffer size
+    # covers them all -- combined with indentation and (via the variants)
+    # with multi-byte encodings and CRLF
+    for dim in ('pre_total', 'diff_total', 'diff_one', 'meta_total',
+                'straddle', 'pre_barecr'):
+        for size in ((300000,) if tier == 'quick' else (300000, 1300000)):
+            for indent in (4, 3):
+                c = dict(SCALE_DEFAULT)
+                c[dim] = size
+                c['indent'] = indent
+                c['_huge'] = 1
+                if dim.startswith('pre') or dim == 'straddle' or indent == 4:
+                    out.append(c)
+    for dim in ('pre_total', 'diff_total'):
+        for size in ((2500000,) if tier == 'quick' else (2500000, 20000000)):
+            c = dict(SCALE_DEFAULT)
+            c.update({dim: size, 'indent': 4, '_huge': 2})
+            out.append(c)
+    c = dict(SCALE_DEFAULT)
+    c.update({'changes': 40, 'files': 12, 'diff_total': 300000, '_huge': 1})
+    out.append(c)
+    c = dict(SCALE_DEFAULT)
+    c.update({'diff_lines': 120000, 'pre_lines': 30000, '_huge': 1})
+    out.append(c)
     if tier == 'thorough':
         dims = sorted(SCALE_DIMS)
         for i, a in enumerate(dims):
@@ -841,10 +888,14 @@ def scale_configs(tier):
 
 def scale_units(tier, per_unit=6):
     cfgs = scale_configs(tier)
+    per_unit = max(2, per_unit // 2)
     variants = [('utf-8', None, None), ('utf-8', 'utf-16', None),
                 ('utf-16', None, 'dos')]
     items = [(ci, vi) for ci in range(len(cfgs))
-             for vi in range(len(variants))]
+             for vi in range(len(variants))
+             if not cfgs[ci].get('_huge') or vi != 1 or tier == 'thorough']
+    # huge configurations first (they are the long poles)
+    items.sort(key=lambda it: -cfgs[it[0]].get('_huge', 0))
     return [('scale', items[i:i + per_unit])
             for i in range(0, len(items), per_unit)], cfgs, variants
 
@@ -865,7 +916,8 @@ def wr_run_scale_unit(unit, tier, oracle, acc_cls):
         acc.validated += 1
         acc.nontrivial += 1
         for key, msg in viols:
-            dev = sorted(k for k in cfg if cfg[k] != SCALE_DEFAULT[k])
+            dev = sorted(k for k in cfg if k in SCALE_DEFAULT and
+                         cfg[k] != SCALE_DEFAULT[k])
             acc.violation('%s:scale' % key,
                           '%s\nscale configuration %r (root %s, enc %s, '
                           'line endings %s)' % (str(msg)[:1500], cfg, root,
